@@ -144,6 +144,37 @@ func c18Long(c c18Case) *Violation {
 	return nil
 }
 
+// c18AfterOtherCalls: after unrelated sequences of other sizes and the other letter case were searched, the sequence of
+// the first call still holds its bytes and the same call gives the same hits.
+func c18AfterOtherCalls(name string, seq, orig, q []byte, first []gts.Segment) *Violation {
+	var again []gts.Segment
+	if pi := guard(func() {
+		for _, n := range []int{len(orig), len(orig) / 2, 1, 3} {
+			if n <= 0 {
+				continue
+			}
+			other := bytes.Repeat([]byte("GATTACAN"), n/8+1)[:n]
+			gts.Search(gts.New(nil, nil, other), gts.New(nil, nil, []byte("att")))
+			gts.Match(gts.New(nil, nil, other), gts.New(nil, nil, []byte("ry")))
+			gts.Search(gts.New(nil, nil, bytes.ToLower(other)), gts.New(nil, nil, []byte("TT")))
+		}
+		if name == "Search" {
+			again = gts.Search(gts.New(nil, nil, seq), gts.New(nil, nil, q))
+		} else {
+			again = gts.Match(gts.New(nil, nil, seq), gts.New(nil, nil, q))
+		}
+	}); pi != nil {
+		return panicViolation(name+" after other calls", pi)
+	}
+	if !bytes.Equal(seq, orig) {
+		return viol("argument-modified", "%s(%q, %q): after other sequences were searched the sequence reads %q", name, orig, q, seq)
+	}
+	if fmt.Sprint(again) != fmt.Sprint(first) {
+		return viol("result-later", "%s(%q, %q) gave %v and, after other sequences were searched, gives %v", name, orig, q, first, again)
+	}
+	return nil
+}
+
 // c18Concurrent: the operations are functions of their arguments: calls that overlap in time (eight goroutines, each
 // with its own queries on its own copy of the sequence) return what the same calls return one after the other.
 func c18Concurrent(c c18Case) *Violation {
@@ -246,6 +277,9 @@ func c18Check(c c18Case) *Violation {
 		}); pi != nil {
 			return panicViolation(fmt.Sprintf("Search(%q,%q)", seq, q), pi)
 		}
+		if v := c18AfterOtherCalls("Search", seq, []byte(c.Seq), q, got); v != nil {
+			return v
+		}
 		var want []gts.Segment
 		if len(q) > 0 {
 			ls, lq := bytes.ToLower(seq), bytes.ToLower(q)
@@ -268,6 +302,9 @@ func c18Check(c c18Case) *Violation {
 			gts.Search(gts.New(nil, nil, []byte("ttacgtacgtaa")), gts.New(nil, nil, []byte("acgt")))
 		}); pi != nil {
 			return panicViolation(fmt.Sprintf("Match(%q,%q)", seq, q), pi)
+		}
+		if v := c18AfterOtherCalls("Match", seq, []byte(c.Seq), q, got); v != nil {
+			return v
 		}
 		hit := func(i int) bool {
 			if i+len(q) > len(seq) {
